@@ -42,6 +42,13 @@ def _category(cat, flags):
         'CATEGORY_SPACE': z3.Union(z3.Re(' '), z3.Range('\t', '\r')),
         'CATEGORY_WORD': z3.Union(z3.Range('a', 'z'), z3.Range('A', 'Z'), z3.Range('0', '9'), z3.Re('_')),
     }
+    if not (flags & re.ASCII):
+        # a str pattern without re.ASCII: \w and \s also match non-ASCII characters.  Representative ranges are added (Latin-1 /
+        # Latin Extended letters, CJK ideographs; NBSP, NEL, the FS-US separators, LINE / PARAGRAPH SEPARATOR, IDEOGRAPHIC SPACE) so that
+        # `[a-zA-Z0-9_]` and `\w` (or ` \t` and `\s`) are DIFFERENT languages, as they are in Python.  \d stays on the ASCII digits
+        # (Unicode decimal digits are exercised by the bounded tokeniser checks).
+        asc['CATEGORY_WORD'] = z3.Union(asc['CATEGORY_WORD'], z3.Range('\u00c0', '\u00d6'), z3.Range('\u00d8', '\u00f6'), z3.Range('\u00f8', '\u024f'), z3.Range('\u4e00', '\u9fff'))
+        asc['CATEGORY_SPACE'] = z3.Union(asc['CATEGORY_SPACE'], z3.Range('\x1c', '\x1f'), z3.Re('\x85'), z3.Re('\xa0'), z3.Range('\u2028', '\u2029'), z3.Re('\u3000'))
     base = n.replace('CATEGORY_NOT_', 'CATEGORY_').replace('CATEGORY_UNI_', 'CATEGORY_').replace('CATEGORY_LOC_', 'CATEGORY_')
     if base not in asc:
         raise Untranslatable(n)
@@ -80,7 +87,7 @@ def to_re(sub, flags=0, notes=None, drop_assertions=False):
                 elif n2 == 'CATEGORY':
                     alts.append(_category(a2, flags))
                     if notes is not None:
-                        notes.add('character categories (\\d \\s \\w) are modelled on the ASCII subset')
+                        notes.add('character categories (\\d \\s \\w) are modelled on the ASCII subset plus representative non-ASCII ranges for \\w and \\s')
                 else:
                     raise Untranslatable(n2)
             r = alts[0] if len(alts) == 1 else z3.Union(*alts)
